@@ -120,4 +120,44 @@ Effect(a, r) ==
            [] b = "fill_run" -> [log |-> <<Tok("run", <<7>>)>>, sink |-> <<Tok("run", <<7>>)>>, ret |-> <<>>]
            [] OTHER -> [log |-> <<Tok(MN(b), <<-1, 7>>)>>, sink |-> <<Tok(MN(b), <<7>>)>>, ret |-> <<>>]
 
+(***************************************************************************)
+(* The adapter OBJECT as an element.  "Adapters hide unused methods to     *)
+(* prevent ambiguity": whatever the wrapped element can do, the adapter    *)
+(* object has the interface of its kind and nothing else that the framework*)
+(* looks for - it is what decides how a Sequence, a FillSeq, a Split or    *)
+(* another adapter will use it.                                            *)
+(***************************************************************************)
+NoCaps == [run |-> "no", fill |-> "no", compute |-> "no", request |-> "no", fill_into |-> "no", m |-> "no",
+           call |-> FALSE, iter |-> FALSE, cbf |-> FALSE, truth |-> TRUE]
+Interface(a) == CASE a \in {"Call", "SourceEl"} -> [NoCaps EXCEPT !.call = TRUE]
+                  [] a = "Run" -> [NoCaps EXCEPT !.run = "meth"]
+                  [] a = "FillInto" -> [NoCaps EXCEPT !.fill_into = "meth"]
+                  [] a = "FillCompute" -> [NoCaps EXCEPT !.fill = "meth", !.compute = "meth"]
+\* hides = TRUE: as documented.  hides = FALSE: an adapter that lets the public attributes of the wrapped element
+\* through (special methods and private names are looked up on the adapter's own type: not forwarded)
+Exposed(a, c, hides) ==
+  IF hides THEN Interface(a)
+  ELSE [x \in DOMAIN NoCaps |-> IF x \in {"call", "iter", "cbf", "truth"} THEN Interface(a)[x]
+                                 ELSE IF Interface(a)[x] = "meth" THEN "meth" ELSE c[x]]
+
+(***************************************************************************)
+(* An adapter around an adapter: outer(inner(el, arg)) with no method name.*)
+(* The decision is Decide on the interface of the inner adapter; the probe *)
+(* of the outer adapter reaches the element through the inner one.         *)
+(* Pairs whose call signatures do not fit (SourceEl is called without a    *)
+(* value) are left out.                                                    *)
+(***************************************************************************)
+Fits(outer, inner) == (outer = "SourceEl") = (inner = "SourceEl")
+\* r1: binding of the inner adapter to the element, r2: binding of the outer adapter to the inner one
+NestedEffect(outer, r2, inner, r1) ==
+  LET e == Effect(inner, r1) IN
+  CASE r2.bind = "call_per_value" ->            \* Run(Call(el)): inner(7), inner(8)
+         LET n == e.log[1].n IN [log |-> <<Tok(n, <<7>>), Tok(n, <<8>>)>>, sink |-> <<>>,
+                                 ret |-> <<Tok(n, <<7>>), Tok(n, <<8>>)>>]
+    [] r2.bind = "fill_then_compute" ->         \* Run(FillCompute(el)): inner.fill(7), inner.fill(8), inner.compute()
+         [log |-> <<Tok(r1.f, <<7>>), Tok(r1.f, <<8>>), Tok(r1.c, <<>>)>>, sink |-> <<>>, ret |-> <<Tok(r1.c, <<>>)>>]
+    [] r2.bind = "fill_call" ->                 \* FillInto(Call(el)): sink.fill(inner(7))
+         [log |-> e.log, sink |-> e.ret, ret |-> <<>>]
+    [] OTHER -> e                               \* the same interface twice: Call(Call), Run(Run), ...
+
 =============================================================================
